@@ -1,32 +1,46 @@
 #!/usr/bin/env python3
 """C06: regenerates from rs/anda_db/src/collection.rs (+ database.rs)
 
-  Gen/Lifecycle.lean         the six LIFECYCLE_* constants and, per function that does a
-                             `compare_exchange` / `store` on `lifecycle`, every (from, to) pair;
-                             the order of the effect markers of `AndaDB::delete_collection`,
-                             `close_collection` and of the retiring-handle branch of
-                             `open_collection_with_schema`
-  Gen/CollectionGuards.lean  for every fn of `impl Collection` its receiver class, visibility and
-                             *guard skeleton* (markers in textual order) plus the intra-file call
-                             graph and its closure "transitively reaches a storage mutation".
+  Gen/Lifecycle.lean         the six LIFECYCLE_* constants; per entry point (a `pub` / `pub(crate)` fn of
+                             `impl Collection`, or one of the named anchors `poison`, `begin_delete`) every
+                             (from, to) pair of every `compare_exchange` / `store` on `lifecycle` it performs
+                             itself or through private helpers; the refusal conditions of `set_read_only` and
+                             `ensure_mutable`; the order of the effect markers of `AndaDB::delete_collection`,
+                             `close_collection`, `open_collection_with_schema`, `set_read_only`
+  Gen/CollectionGuards.lean  for every `pub` / `pub(crate)` fn of `impl Collection`: receiver class and
+                             *guard skeleton* (markers in execution = textual order, private helpers inlined).
 
-Strict about meaning (unknown lifecycle constant, a CAS whose source set cannot be determined, a
-missing function => error), tolerant about layout (comment-stripped copy, regexes keyed on names).
+Keyed on WHAT IS CALLED (field / method / constant names) and on order, never on the names of locals,
+temporaries or private helpers:
+  * private helpers (no `pub`) are inlined into their callers, recursively, so extracting a block into a helper,
+    splitting a function into begin_/finish_ parts or sharing a helper leaves every table unchanged;
+    the anchors `ensure_mutable`, `mutation_lease`, `cancel_guard`, `poison`, `begin_delete` are markers, not inlined;
+  * the source states of a `compare_exchange(v, TO)` whose first argument is a variable are the lifecycle values
+    under which the call site is reachable: a small path-condition analysis over the enclosing / preceding
+    `match` arms and `if` / `else` chains (`matches!`, `==`, `!=`, `!`, `&&`, `||`), per lifecycle *load*
+    (two loads are never identified); what it cannot decide is over-approximated (more source states);
+  * the refusal facts of `set_read_only` / `ensure_mutable` are computed by the same analysis ("for which
+    lifecycle value / flags is `read_only.store(..)` / the final `Ok` reachable"), after inlining helpers whose
+    body is a single expression;
+  * runs of body markers are normalised (a maximal run of mutations / awaits / poison calls / calls is emitted as
+    the sorted set of its members): the guard automata depend only on that set.
+
+Strict about meaning: unknown lifecycle constant, a CAS target that is not a constant, a lifecycle mutation
+outside `impl Collection`, a missing anchor => error, never a default.
 """
 import re, sys
 from common import *
 
 repo, gen = sys.argv[1], sys.argv[2]
 REL = "rs/anda_db/src/collection.rs"
-src_full = strip_rust_comments(read_source(repo, REL))
-# production code only
-m = re.search(r"#\[cfg\(test\)\]\s*mod\s+tests", src_full)
-src = src_full[:m.start()] if m else src_full
+src = cut_tests(strip_rust_comments(read_source(repo, REL)))
+
+W = r"\s*"
+STATES = ["ACTIVE", "CLOSING", "CLOSED", "DELETING", "DELETED", "POISONED"]
 
 # ------------------------------------------------------------------------------------------
 # lifecycle constants
 # ------------------------------------------------------------------------------------------
-STATES = ["ACTIVE", "CLOSING", "CLOSED", "DELETING", "DELETED", "POISONED"]
 consts = {}
 for m in re.finditer(r"\bconst\s+LIFECYCLE_(\w+)\s*:\s*u8\s*=\s*(\d+)\s*;", src):
     if m.group(1) in consts:
@@ -38,7 +52,7 @@ if len(set(consts.values())) != len(consts):
     die("c06_guards: two lifecycle constants share a value")
 
 # ------------------------------------------------------------------------------------------
-# fns of `impl Collection`
+# fns of an impl block
 # ------------------------------------------------------------------------------------------
 
 def match_brace(text, i, open_c="{", close_c="}"):
@@ -90,10 +104,8 @@ def fns_of(text, ty):
                     name = m.group(4)
                     vis = 2 if (m.group(1) and not m.group(2)) else 1 if m.group(1) else 0
                     is_async = bool(m.group(3))
-                    # parameter list: first '(' at angle-depth 0 after the name
                     k = m.end()
                     if text[k:k + 1] == "<":
-                        # generic parameters
                         d = 0
                         while True:
                             if text[k] == "<":
@@ -119,7 +131,8 @@ def fns_of(text, ty):
                     b1 = match_brace(text, b0)
                     if name in fns:
                         die(f"c06_guards: fn {name} defined twice in impl {ty}")
-                    fns[name] = dict(name=name, vis=vis, is_async=is_async, recv=recv, body=text[b0 + 1:b1])
+                    fns[name] = dict(name=name, vis=vis, is_async=is_async, recv=recv, params=params,
+                                     raw=text[b0 + 1:b1], span=(m.start(), b1 + 1))
                     i = b1 + 1
                     continue
             i += 1
@@ -127,15 +140,445 @@ def fns_of(text, ty):
 
 
 fns = fns_of(src, "Collection")
-for need in ["ensure_mutable", "mutation_lease", "cancel_guard", "poison", "close", "flush", "begin_delete", "drop_data",
-             "set_read_only", "add", "update", "remove"]:
+ANCHORS = ["ensure_mutable", "mutation_lease", "cancel_guard", "poison", "begin_delete"]
+for need in ANCHORS + ["close", "flush", "drop_data", "set_read_only", "add", "update", "remove"]:
     if need not in fns:
         die(f"c06_guards: fn Collection::{need} not found")
 
 # ------------------------------------------------------------------------------------------
-# markers
+# canonical body: every atomic load becomes a token; a local bound to a lifecycle load becomes a
+# reference to *that* load (two loads are never identified)
 # ------------------------------------------------------------------------------------------
-W = r"\s*"
+LOAD_ARGS = r"\(" + W + r"[\w:]*" + W + r"\)"
+
+
+def canon(body):
+    k = [0]
+
+    def lc(_):
+        k[0] += 1
+        return f"§LC{k[0]}§"
+    t = re.sub(r"(?:\bself" + W + r"\." + W + r")?\blifecycle" + W + r"\." + W + r"load" + W + LOAD_ARGS, lc, body)
+    t = re.sub(r"(?:\bself" + W + r"\." + W + r")?\bdatabase_read_only" + W + r"\." + W + r"load" + W + LOAD_ARGS, "§DBRO§", t)
+    t = re.sub(r"\bself" + W + r"\." + W + r"read_only" + W + r"\." + W + r"load" + W + LOAD_ARGS, "§RO§", t)
+    # let X = §LCk§;  =>  later standalone X means "the value of load k"
+    pos = 0
+    while True:
+        m = re.compile(r"\blet\s+(?:mut\s+)?(\w+)\s*(?::\s*u8\s*)?=\s*§LC(\d+)§\s*;").search(t, pos)
+        if not m:
+            break
+        var, idx = m.group(1), m.group(2)
+        head, tail = t[:m.end()], t[m.end():]
+        # up to a rebinding of the same name
+        rb = re.search(r"\blet\s+(?:mut\s+)?" + re.escape(var) + r"\b", tail)
+        lim = rb.start() if rb else len(tail)
+        seg = re.sub(r"(?<![\w.§])" + re.escape(var) + r"\b(?!\s*[.(:§])", f"§REF{idx}§", tail[:lim])
+        t = head + seg + tail[lim:]
+        pos = len(head)
+    return t
+
+
+for f in fns.values():
+    f["body"] = canon(f["raw"])
+
+# ------------------------------------------------------------------------------------------
+# path conditions
+# ------------------------------------------------------------------------------------------
+TOK = re.compile(r"\s*(§\w+§|matches!|\|\||&&|==|!=|!|\(|\)|,|\||LIFECYCLE_\w+|true\b|false\b|[A-Za-z_]\w*|.)", re.S)
+
+
+class Cond:
+    """3-valued evaluation of a Rust boolean expression over lifecycle loads and the read-only flags.
+    env: {"lc": {k: STATE}, "dbro": bool|None, "ro": bool|None, "params": {name: bool}}; None = unknown."""
+
+    def __init__(self, text, env):
+        self.toks = [m.group(1) for m in TOK.finditer(text) if m.group(1).strip()]
+        self.i = 0
+        self.env = env
+
+    def peek(self):
+        return self.toks[self.i] if self.i < len(self.toks) else None
+
+    def eat(self):
+        t = self.peek()
+        self.i += 1
+        return t
+
+    def parse(self):
+        if self.peek() == "let":
+            return None
+        v = self.or_()
+        if self.peek() is not None:
+            return None
+        return v if isinstance(v, bool) or v is None else None
+
+    def or_(self):
+        v = self.and_()
+        while self.peek() == "||":
+            self.eat()
+            w = self.and_()
+            v = True if (v is True or w is True) else False if (v is False and w is False) else None
+        return v
+
+    def and_(self):
+        v = self.cmp()
+        while self.peek() == "&&":
+            self.eat()
+            w = self.cmp()
+            v = False if (v is False or w is False) else True if (v is True and w is True) else None
+        return v
+
+    def cmp(self):
+        a = self.unary()
+        if self.peek() in ("==", "!="):
+            op = self.eat()
+            b = self.unary()
+            if a is None or b is None:
+                return None
+            return (a == b) if op == "==" else (a != b)
+        return a
+
+    def unary(self):
+        if self.peek() == "!":
+            self.eat()
+            v = self.unary()
+            return (not v) if isinstance(v, bool) else None
+        return self.primary()
+
+    def value_of(self, t):
+        m = re.fullmatch(r"§(?:LC|REF)(\d+)§", t)
+        if m:
+            return self.env.get("lc", {}).get(int(m.group(1)))
+        if t == "§DBRO§":
+            return self.env.get("dbro")
+        if t == "§RO§":
+            return self.env.get("ro")
+        if t.startswith("LIFECYCLE_"):
+            n = t[len("LIFECYCLE_"):]
+            if n not in consts:
+                die(f"c06_guards: unknown lifecycle constant {t}")
+            return n
+        if t == "true":
+            return True
+        if t == "false":
+            return False
+        return self.env.get("params", {}).get(t)
+
+    def skip_group(self, open_t, close_t):
+        depth = 1
+        while depth and self.peek() is not None:
+            t = self.eat()
+            if t == open_t:
+                depth += 1
+            elif t == close_t:
+                depth -= 1
+
+    def primary(self):
+        t = self.eat()
+        if t is None:
+            return None
+        if t == "(":
+            v = self.or_()
+            if self.peek() == ")":
+                self.eat()
+            else:
+                return None
+            return self.postfix(v)
+        if t == "matches!":
+            if self.eat() != "(":
+                return None
+            subj = self.value_of(self.eat() or "")
+            if self.eat() != ",":
+                return None
+            pats, guard = [], False
+            while self.peek() not in (")", None):
+                p = self.eat()
+                if p == "|":
+                    continue
+                if p == "if":
+                    guard = True
+                if p.startswith("LIFECYCLE_"):
+                    pats.append(self.value_of(p))
+                else:
+                    guard = True
+            self.eat()
+            if subj is None or guard:
+                return None
+            return subj in pats
+        if t in ("{", "["):
+            return None
+        v = self.value_of(t)
+        return self.postfix(v, ident=re.fullmatch(r"[A-Za-z_]\w*", t) is not None and not t.startswith("LIFECYCLE_"))
+
+    def postfix(self, v, ident=False):
+        # anything applied to the value (`.x`, `::x`, `(..)`, `?`, `[..]`) makes it unknown
+        touched = False
+        while self.peek() in (".", ":", "(", "?", "[", "{"):
+            t = self.eat()
+            touched = True
+            if t == "(":
+                self.skip_group("(", ")")
+            elif t == "[":
+                self.skip_group("[", "]")
+            elif t == "{":
+                self.skip_group("{", "}")
+            elif t in (".", ":"):
+                while self.peek() == ":":
+                    self.eat()
+                if self.peek() is not None and re.fullmatch(r"[A-Za-z_]\w*|\d+", self.peek()):
+                    self.eat()
+        return None if touched else v
+
+
+def ev(text, env):
+    try:
+        return Cond(text, env).parse()
+    except RecursionError:
+        return None
+
+
+def pat_set(pat):
+    """states matched by a match-arm pattern over lifecycle constants; None = cannot tell"""
+    if re.search(r"\bif\b", pat):
+        return None
+    alts = [a.strip() for a in pat.split("|")]
+    out = set()
+    for a in alts:
+        m = re.fullmatch(r"LIFECYCLE_(\w+)", a)
+        if not m:
+            return None
+        if m.group(1) not in consts:
+            die(f"c06_guards: unknown lifecycle constant LIFECYCLE_{m.group(1)}")
+        out.add(m.group(1))
+    return out
+
+
+def skip_ws(t, i):
+    while i < len(t) and t[i].isspace():
+        i += 1
+    return i
+
+
+def block_open(t, i, end):
+    """first `{` at paren/bracket depth 0 in t[i:end]"""
+    d = 0
+    while i < end:
+        c = t[i]
+        if c in "([":
+            d += 1
+        elif c in ")]":
+            d -= 1
+        elif c == "{" and d == 0:
+            return i
+        i += 1
+    return -1
+
+
+def diverges(block):
+    """the block's last statement is `return` / `break` / `continue`"""
+    b = block.strip()
+    if b.endswith(";"):
+        b = b[:-1]
+    # last statement at brace/paren depth 0
+    d, last = 0, 0
+    for i, c in enumerate(b):
+        if c in "([{":
+            d += 1
+        elif c in ")]}":
+            d -= 1
+        elif c == ";" and d == 0:
+            last = i + 1
+    return re.match(r"\s*(return|break|continue)\b", b[last:]) is not None
+
+
+def subject_of(scrut):
+    m = re.fullmatch(r"\s*§(?:LC|REF)(\d+)§\s*", scrut)
+    return int(m.group(1)) if m else None
+
+
+def match_arms(t, a, b):
+    """arms of the match block t[a:b] (a, b inside the braces): [(pattern, body_start, body_end)]"""
+    arms, i = [], a
+    while True:
+        i = skip_ws(t, i)
+        if i >= b:
+            break
+        # pattern up to `=>` at depth 0
+        d, j = 0, i
+        while j < b:
+            c = t[j]
+            if c in "([{":
+                d += 1
+            elif c in ")]}":
+                d -= 1
+            elif c == "=" and t[j:j + 2] == "=>" and d == 0:
+                break
+            j += 1
+        if j >= b:
+            break
+        pat = t[i:j].strip()
+        k = skip_ws(t, j + 2)
+        if t[k] == "{":
+            e = match_brace(t, k)
+            arms.append((pat, k + 1, e))
+            i = skip_ws(t, e + 1)
+            if i < b and t[i] == ",":
+                i += 1
+        else:
+            d, e = 0, k
+            while e < b:
+                c = t[e]
+                if c in "([{":
+                    d += 1
+                elif c in ")]}":
+                    d -= 1
+                elif c == "," and d == 0:
+                    break
+                e += 1
+            arms.append((pat, k, e))
+            i = e + 1
+    return arms
+
+
+KW = re.compile(r"(if|match)\b")
+
+
+def constraints(t, a, b, pos, out):
+    """appends to `out` functions env -> True/False/None that all hold whenever control is at `pos` of t[a:b]"""
+    i = a
+    while i < b and i <= pos:
+        c = t[i]
+        if c == "{":
+            e = match_brace(t, i)
+            if i < pos < e:
+                return constraints(t, i + 1, e, pos, out)
+            i = e + 1
+            continue
+        m = KW.match(t, i) if (c in "im" and (i == 0 or not (t[i - 1].isalnum() or t[i - 1] in "_§"))) else None
+        if not m:
+            i += 1
+            continue
+        if m.group(1) == "match":
+            bo = block_open(t, m.end(), b)
+            if bo < 0:
+                i = m.end()
+                continue
+            bc = match_brace(t, bo)
+            subj = subject_of(t[m.end():bo])
+            arms = match_arms(t, bo + 1, bc)
+            sets = [pat_set(p) if p != "_" else "_" for p, _, _ in arms]
+            if bo < pos < bc:
+                for idx, (pat, s, e) in enumerate(arms):
+                    if s <= pos <= e:
+                        if subj is not None:
+                            earlier = [x for x in sets[:idx]]
+                            if sets[idx] == "_":
+                                if all(isinstance(x, set) for x in earlier):
+                                    excl = set().union(*earlier) if earlier else set()
+                                    out.append(lambda env, k=subj, ex=excl: None if env["lc"].get(k) is None else env["lc"][k] not in ex)
+                            elif isinstance(sets[idx], set):
+                                inc = sets[idx]
+                                out.append(lambda env, k=subj, inc=inc: None if env["lc"].get(k) is None else env["lc"][k] in inc)
+                        return constraints(t, s, e, pos, out)
+                return
+            # the whole match is before pos: arms that certainly leave exclude their values
+            if subj is not None and bc < pos:
+                gone, seen, ok = set(), set(), True
+                for (pat, s, e), st in zip(arms, sets):
+                    if st is None:
+                        ok = False
+                        break
+                    vals = (set(STATES) - seen) if st == "_" else (st - seen)
+                    if diverges(t[s:e]):
+                        gone |= vals
+                    seen |= set(STATES) if st == "_" else st
+                if ok and gone:
+                    out.append(lambda env, k=subj, g=gone: None if env["lc"].get(k) is None else env["lc"][k] not in g)
+            i = bc + 1
+            continue
+        # if / else-if / else chain
+        branches, j = [], i
+        while True:
+            cstart = j + 2
+            bo = block_open(t, cstart, b)
+            if bo < 0:
+                branches = None
+                break
+            bc = match_brace(t, bo)
+            branches.append((t[cstart:bo], cstart, bo, bc))
+            k = skip_ws(t, bc + 1)
+            if t.startswith("else", k) and not (t[k + 4:k + 5].isalnum() or t[k + 4:k + 5] == "_"):
+                k2 = skip_ws(t, k + 4)
+                if t.startswith("if", k2) and not (t[k2 + 2:k2 + 3].isalnum() or t[k2 + 2:k2 + 3] == "_"):
+                    j = k2
+                    continue
+                if t[k2:k2 + 1] == "{":
+                    e2 = match_brace(t, k2)
+                    branches.append((None, k2, k2, e2))
+                    end = e2 + 1
+                    break
+            end = bc + 1
+            break
+        if branches is None:
+            i = m.end()
+            continue
+        if pos < end:
+            for idx, (cond, cs, bo, bc) in enumerate(branches):
+                if bo < pos < bc or (cond is not None and cs <= pos <= bo):
+                    for (c2, _, _, _) in branches[:idx]:
+                        out.append(lambda env, c2=c2: (lambda v: None if v is None else not v)(ev(c2, env)))
+                    if cond is not None and bo < pos < bc:
+                        out.append(lambda env, cond=cond: ev(cond, env))
+                        return constraints(t, bo + 1, bc, pos, out)
+                    if cond is None:
+                        return constraints(t, bo + 1, bc, pos, out)
+                    # inside the condition: uniform short-circuit prefix
+                    pre = t[cs:pos]
+                    if "||" in pre and "&&" not in pre and pre.count("(") == pre.count(")"):
+                        for part in pre.split("||")[:-1]:
+                            out.append(lambda env, p=part: (lambda v: None if v is None else not v)(ev(p, env)))
+                    elif "&&" in pre and "||" not in pre and pre.count("(") == pre.count(")"):
+                        for part in pre.split("&&")[:-1]:
+                            out.append(lambda env, p=part: ev(p, env))
+                    return
+            return
+        # chain entirely before pos: a branch that certainly leaves excludes its condition
+        def stays(env, branches=branches):
+            """False when control certainly left through a branch that ends in return/break/continue"""
+            may_leave = may_continue = False
+            closed = False            # a branch is certainly taken: later ones are unreachable
+            for (cond, cs, bo, bc) in branches:
+                v = True if cond is None else ev(cond, env)
+                if v is False:
+                    continue
+                if diverges(t[bo + 1:bc]):
+                    may_leave = True
+                else:
+                    may_continue = True
+                if v is True:
+                    closed = True
+                    break
+            if not closed:
+                may_continue = True   # every condition may be false (no `else`, or not certainly taken)
+            if may_leave and not may_continue:
+                return False
+            return None if may_leave else True
+        out.append(stays)
+        i = end
+    return
+
+
+def reachable(t, pos, env):
+    out = []
+    constraints(t, 0, len(t), pos, out)
+    full = {"lc": {}, "dbro": None, "ro": None, "params": {}}
+    full.update(env)
+    return all(c(full) is not False for c in out)
+
+
+# ------------------------------------------------------------------------------------------
+# marks of one (un-inlined) function body
+# ------------------------------------------------------------------------------------------
 GATE = r"operation_gate" + W + r"(?:\." + W + r"clone\(\)" + W + r")?\." + W
 PATTERNS = [
     ("gateRead", GATE + r"(?:read_owned|read)\(\)" + W + r"\." + W + r"await"),
@@ -148,86 +591,81 @@ PATTERNS = [
     ("disarm", r"\." + W + r"disarm\(\)"),
     ("poison", r"\bself" + W + r"\." + W + r"poison\("),
     ("beginDelete", r"\bself" + W + r"\." + W + r"begin_delete\(\)"),
-    ("lcLoad", r"\blifecycle" + W + r"\." + W + r"load\("),
+    ("lcLoad", r"§LC\d+§"),
     ("lcCas", r"\blifecycle" + W + r"\." + W + r"compare_exchange(?:_weak)?\("),
     ("lcStore", r"\blifecycle" + W + r"\." + W + r"(?:store|swap|fetch_\w+)\("),
     ("roStore", r"\bself" + W + r"\." + W + r"read_only" + W + r"\." + W + r"(?:store|swap|fetch_\w+)\("),
     ("awaitPt", r"\." + W + r"await\b"),
 ]
 STORAGE_MUT = r"\bstorage" + W + r"\." + W + r"(create|put|put_bytes|delete|drop_data|drop_prefix|store_metadata|to_writer|stream_writer)" + W + r"(?:::<[^>]*>)?\("
-INDEX_MUT = r"(\bindex" + W + r"\." + W + r"(?:flush|compact_index|drop_data)" + W + r"\(|\b(?:BTree|BM25|Hnsw)" + W + r"::" + W + r"(?:new|with_virtual_field)" + W + r"\()"
-CALL_RE = re.compile(r"\b(?:self|collection|Self|Collection)" + W + r"(?:\.|::)" + W + r"(\w+)" + W + r"(?:::<[^>]*>)?\(")
+# index mutations: the method that is called, on whatever the index is called locally
+INDEX_MUT = r"(\." + W + r"(?:flush|compact_index|drop_data)" + W + r"\(|\b(?:BTree|BM25|Hnsw)" + W + r"::" + W + r"(?:new|with_virtual_field)" + W + r"\()"
 
 
-def direct_mut(body):
-    return [m.start() for m in re.finditer(STORAGE_MUT, body)] + [m.start() for m in re.finditer(INDEX_MUT, body)]
+def handle_names(f):
+    """`self` and locals that are the collection under construction (`let mut c = Self { .. }`)"""
+    names = ["self", "Self", "Collection"]
+    for m in re.finditer(r"\blet\s+(?:mut\s+)?(\w+)\s*(?::\s*[\w:<>]+\s*)?=\s*(?:Self|Collection)\s*(?:\{|::\s*\w+\s*\()", f["raw"]):
+        names.append(m.group(1))
+    return names
 
 
-def calls_of(body):
-    return [(m.start(), m.group(1)) for m in CALL_RE.finditer(body) if m.group(1) in fns]
+def call_sites(f, table):
+    rx = re.compile(r"(?<![\w.§])(?:" + "|".join(map(re.escape, handle_names(f))) + r")" + W + r"(?:\.|::)" + W + r"(\w+)" + W + r"(?:::<[^>()]*>)?\(")
+    out = []
+    body = f["body"]
+    for m in rx.finditer(body):
+        if m.group(1) in table:
+            p1 = match_brace(body, m.end() - 1, "(", ")")
+            aw = re.match(r"(\s*)\.\s*await\b", body[p1 + 1:])
+            out.append((m.start(), m.group(1), (p1 + 1 + len(aw.group(1))) if aw else None))
+    return out
 
 
-# closure: which fns transitively reach a storage mutation
-reaches = {n: bool(direct_mut(f["body"])) for n, f in fns.items()}
-changed = True
-while changed:
-    changed = False
-    for n, f in fns.items():
-        if not reaches[n] and any(reaches[c] for _, c in calls_of(f["body"])):
-            reaches[n] = True
-            changed = True
+def index_mut_sites(f):
+    body = f["body"]
+    own = re.compile(r"(?<![\w.§])(?:" + "|".join(map(re.escape, handle_names(f))) + r")" + W + r"$")
+    out = []
+    for m in re.finditer(INDEX_MUT, body):
+        if m.group(0).lstrip().startswith("."):
+            # `.flush(` etc. on the collection itself is a call of a Collection fn, not an index mutation;
+            # `storage.drop_data(` is already a storage mutation
+            if own.search(body[:m.start()]):
+                continue
+        out.append(m.start())
+    return out
 
-# closure: which fns transitively reach `self.poison(..)`
-poisons = {n: bool(re.search(r"\bself" + W + r"\." + W + r"poison\(", f["body"])) for n, f in fns.items()}
-changed = True
-while changed:
-    changed = False
-    for n, f in fns.items():
-        if not poisons[n] and any(poisons[c] for _, c in calls_of(f["body"])):
-            poisons[n] = True
-            changed = True
 
-# sanity: mutation_lease is "shared gate, then ensure_mutable?"
+def direct_mut(f):
+    return [m.start() for m in re.finditer(STORAGE_MUT, f["body"])] + index_mut_sites(f)
+
+
+for f in fns.values():
+    f["calls"] = call_sites(f, fns)
+    f["muts"] = direct_mut(f)
+
+# closures over the whole call graph (private helpers included)
+reaches = {n: bool(f["muts"]) for n, f in fns.items()}
+poisons = {n: bool(re.search(PATTERNS[8][1], f["body"])) for n, f in fns.items()}
+for table in (reaches, poisons):
+    changed = True
+    while changed:
+        changed = False
+        for n, f in fns.items():
+            if not table[n] and any(table[c] for _, c, _ in f["calls"]):
+                table[n] = True
+                changed = True
+
+# mutation_lease: shared gate first, then ensure_mutable whose verdict is propagated
 ml = fns["mutation_lease"]["body"]
 mr = re.search(PATTERNS[0][1], ml)
-me = re.search(PATTERNS[4][1], ml)
-if not (mr and me and mr.start() < me.start()) or re.search(PATTERNS[1][1], ml):
-    die("c06_guards: mutation_lease is no longer `operation_gate.read_owned().await; ensure_mutable()?`")
+me = re.search(r"\bself" + W + r"\." + W + r"ensure_mutable\(\)", ml)
+propagated = me and (re.match(W + r"\?", ml[me.end():]) or
+                     (re.match(W + r"\." + W + r"(?:map|and|and_then)\(", ml[me.end():]) and not ml.rstrip().endswith(";")
+                      and ";" not in ml[me.end():]))
+if not (mr and me and mr.start() < me.start() and propagated) or re.search(PATTERNS[1][1], ml):
+    die("c06_guards: mutation_lease is no longer `operation_gate.read_owned().await` followed by a propagated `ensure_mutable()`")
 
-
-def skeleton(name):
-    body = fns[name]["body"]
-    marks = []  # (pos, priority, marker)
-    taken = []  # spans consumed by gate/lease patterns (their `.await` is not a body await)
-    for pr, (mk, pat) in enumerate(PATTERNS):
-        for m in re.finditer(pat, body):
-            if mk == "awaitPt":
-                if any(a <= m.start() < b for a, b in taken):
-                    continue
-            if mk in ("gateRead", "gateWrite", "leaseQ", "leaseNoQ"):
-                taken.append((m.start(), m.end()))
-            if mk == "ensureMutableChk" and any(p == m.start() and k == "ensureMutable" for p, _, k in marks):
-                continue
-            if mk == "leaseQ":
-                marks.append((m.start(), pr, "gateRead"))
-                marks.append((m.start() + 1, pr, "ensureMutable"))
-            elif mk == "leaseNoQ":
-                marks.append((m.start(), pr, "gateRead"))
-                marks.append((m.start() + 1, pr, "ensureMutableChk"))
-            else:
-                marks.append((m.start(), pr, mk))
-    for p in direct_mut(body):
-        marks.append((p, 50, "mut"))
-    for p, c in calls_of(body):
-        if reaches[c] and c not in ("mutation_lease",):
-            marks.append((p, 51, 'call "' + c + '"'))
-    marks.sort()
-    return [mk for _, _, mk in marks]
-
-
-# ------------------------------------------------------------------------------------------
-# lifecycle edges
-# ------------------------------------------------------------------------------------------
 
 def lc_names(text):
     out = []
@@ -238,10 +676,11 @@ def lc_names(text):
     return out
 
 
-edges = []  # (fn, from, to)
-for name, f in fns.items():
-    body = f["body"]
-    for m in re.finditer(r"\blifecycle" + W + r"\." + W + r"compare_exchange(?:_weak)?\(", body):
+def lifecycle_sites(name):
+    """[(pos, [(from, to)])] for every compare_exchange / store on `lifecycle` in the fn's own body"""
+    body = fns[name]["body"]
+    out = []
+    for m in re.finditer(PATTERNS[11][1], body):
         e = match_brace(body, m.end() - 1, "(", ")")
         args = [a.strip() for a in body[m.end():e].split(",")]
         if len(args) < 2:
@@ -251,26 +690,170 @@ for name, f in fns.items():
             die(f"c06_guards: compare_exchange target in {name} is not a LIFECYCLE_ constant: {args[1]!r}")
         frm = lc_names(args[0])
         if not frm:
-            # `state` variable: the nearest preceding match arm / matches! guard that names constants
-            before = body[:m.start()]
-            cands = []
-            for g in re.finditer(r"matches!\(\s*" + re.escape(args[0]) + r"\s*,([^)]*)\)", before):
-                cands.append((g.start(), lc_names(g.group(1))))
-            for g in re.finditer(r"((?:LIFECYCLE_\w+\s*\|?\s*)+)=>", before):
-                cands.append((g.start(), lc_names(g.group(1))))
-            if not cands:
-                die(f"c06_guards: cannot determine the source states of the compare_exchange in {name}")
-            frm = max(cands)[1]
-        for a in frm:
-            edges.append((name, a, to[0]))
-    for m in re.finditer(r"\blifecycle" + W + r"\." + W + r"(store|swap|fetch_\w+)\(", body):
+            k = subject_of(args[0])
+            if k is None:
+                frm = list(STATES)      # a value the analysis knows nothing about
+            else:
+                frm = [s for s in STATES if reachable(body, m.start(), {"lc": {k: s}})]
+        out.append((m.start(), [(a, to[0]) for a in frm]))
+    for m in re.finditer(PATTERNS[12][1], body):
         e = match_brace(body, m.end() - 1, "(", ")")
         to = lc_names(body[m.end():e].split(",")[0])
         if len(to) != 1:
-            die(f"c06_guards: lifecycle.{m.group(1)} in {name} does not name one LIFECYCLE_ constant")
-        for a in STATES:
-            edges.append((name, a, to[0]))
-# constructors initialise the atomic: `lifecycle: AtomicU8::new(LIFECYCLE_X)`
+            die(f"c06_guards: lifecycle store in {name} does not name one LIFECYCLE_ constant")
+        out.append((m.start(), [(a, to[0]) for a in STATES]))
+    return out
+
+
+def own_marks(name):
+    f = fns[name]
+    body = f["body"]
+    marks = []  # (pos, priority, marker, data)
+    taken = []
+    for pr, (mk, pat) in enumerate(PATTERNS):
+        for m in re.finditer(pat, body):
+            if mk == "awaitPt" and any(a <= m.start() < b for a, b in taken):
+                continue
+            if mk in ("gateRead", "gateWrite", "leaseQ", "leaseNoQ"):
+                taken.append((m.start(), m.end()))
+            if mk == "ensureMutableChk" and any(p == m.start() and k == "ensureMutable" for p, _, k, _ in marks):
+                continue
+            if mk == "leaseQ":
+                marks.append((m.start(), pr, "gateRead", None))
+                marks.append((m.start() + 1, pr, "ensureMutable", None))
+            elif mk == "leaseNoQ":
+                marks.append((m.start(), pr, "gateRead", None))
+                marks.append((m.start() + 1, pr, "ensureMutableChk", None))
+            elif mk in ("lcCas", "lcStore"):
+                marks.append((m.start(), pr, mk, None))
+            else:
+                marks.append((m.start(), pr, mk, None))
+    for p in f["muts"]:
+        marks.append((p, 50, "mut", None))
+    for p, c, aw in f["calls"]:
+        if c in ("mutation_lease", "ensure_mutable", "cancel_guard", "poison", "begin_delete"):
+            continue
+        marks.append((p, 51, "CALL", (c, aw)))
+    for p, e in lifecycle_sites(name):
+        marks.append((p, 52, "EDGES", e))
+    marks.sort(key=lambda x: (x[0], x[1]))
+    return marks
+
+
+OWN = {n: own_marks(n) for n in fns}
+
+
+def inlinable(c):
+    return fns[c]["vis"] == 0 and c not in ANCHORS
+
+
+def walk(name, stack=()):
+    """events of `name` in textual order, private helpers inlined: ('mk', marker) | ('edges', [(from,to)])"""
+    out = []
+    skip = set()
+    for pos, _, mk, data in OWN[name]:
+        if mk == "CALL":
+            c, aw = data
+            if inlinable(c) and c not in stack and len(stack) < 12:
+                out.extend(walk(c, stack + (name,)))
+                if aw is not None and fns[c]["is_async"]:
+                    skip.add(aw)          # the `.await` of an inlined async helper is not a suspension point of its own
+            elif reaches[c]:
+                out.append(("mk", 'call "' + c + '"'))
+        elif mk == "EDGES":
+            out.append(("edges", data))
+        elif mk == "awaitPt" and pos in skip:
+            continue
+        else:
+            out.append(("mk", mk))
+    return out
+
+
+BODY_ORDER = ["mut", "awaitPt", "poison"]
+
+
+def normalise(sk):
+    """maximal runs of body markers -> sorted set; consecutive lifecycle loads -> one"""
+    out, run = [], []
+
+    def flush():
+        if run:
+            s = set(run)
+            out.extend([k for k in BODY_ORDER if k in s] + sorted(k for k in s if k.startswith("call ")))
+            run.clear()
+    for k in sk:
+        if k in BODY_ORDER or k.startswith("call "):
+            run.append(k)
+        else:
+            flush()
+            if k == "lcLoad" and out and out[-1] == "lcLoad":
+                continue
+            out.append(k)
+    flush()
+    return out
+
+
+def skeleton(name):
+    return normalise([d for k, d in walk(name) if k == "mk"])
+
+
+# ------------------------------------------------------------------------------------------
+# lifecycle edges, attributed to entry points
+# ------------------------------------------------------------------------------------------
+owners = [n for n, f in fns.items() if f["vis"] >= 1 or n in ANCHORS]
+edges, covered = [], set()
+
+
+def covered_by(name, stack=()):
+    covered.add(name)
+    for _, _, mk, data in OWN[name]:
+        if mk == "CALL" and inlinable(data[0]) and data[0] not in stack:
+            covered_by(data[0], stack + (name,))
+
+
+for n in owners:
+    seen = set()
+    for k, d in walk(n):
+        if k == "edges":
+            for a, b in d:
+                if (a, b) not in seen:
+                    seen.add((a, b))
+                    edges.append((n, a, b))
+    covered_by(n)
+for n in fns:
+    if any(mk == "EDGES" for _, _, mk, _ in OWN[n]) and n not in covered:
+        die(f"c06_guards: fn {n} changes `lifecycle` but is not reachable from any entry point of impl Collection")
+# nothing outside `impl Collection` may touch the atomic
+outside = src
+for f in sorted(fns.values(), key=lambda f: -f["span"][0]):
+    outside = outside[:f["span"][0]] + " " * (f["span"][1] - f["span"][0]) + outside[f["span"][1]:]
+if re.search(r"\blifecycle" + W + r"\." + W + r"(?:compare_exchange|store|swap|fetch_\w+)", outside):
+    die("c06_guards: `lifecycle` is changed outside the fns of impl Collection")
+private_writers = [n for n, f in fns.items() if f["vis"] == 0 and reaches[n]]
+called_outside = sorted(set(m.group(1) for m in re.finditer(r"\." + W + r"(\w+)" + W + r"\(", outside) if m.group(1) in private_writers))
+
+# close: after the exclusive gate, the guarded flush is reachable only under these values of the re-checked lifecycle
+def first_guard_after_gate(name):
+    """(position of the gate, position of the first cancel_guard — own or through an inlined helper — after it)"""
+    gate = None
+    for pos, _, mk, data in OWN[name]:
+        if mk == "gateWrite" and gate is None:
+            gate = pos
+        elif gate is not None and (mk == "cancelGuard" or (mk == "CALL" and inlinable(data[0]) and
+                                                            any(k == "mk" and d == "cancelGuard" for k, d in walk(data[0])))):
+            return gate, pos
+    die(f"c06_guards: {name} no longer arms a cancel guard after taking the exclusive gate")
+
+
+g0, g1 = first_guard_after_gate("close")
+cbody = fns["close"]["body"]
+loads = [m for m in re.finditer(r"§LC(\d+)§", cbody) if g0 < m.start() < g1]
+if loads:
+    kk = int(loads[-1].group(1))
+    close_flush_states = [s for s in STATES if reachable(cbody, g1, {"lc": {kk: s}})]
+else:
+    close_flush_states = list(STATES)      # no re-check after the drain
+
 inits = []
 for name, f in fns.items():
     for m in re.finditer(r"\blifecycle" + W + r":" + W + r"AtomicU8" + W + r"::" + W + r"new\(" + W + r"LIFECYCLE_(\w+)", f["body"]):
@@ -278,118 +861,196 @@ for name, f in fns.items():
 if not inits:
     die("c06_guards: no constructor initialises `lifecycle`")
 
-# set_read_only: the refusal condition
-sro = fns["set_read_only"]["body"]
-m = re.search(r"if\s*!\s*read_only\s*&&\s*\(([^{]*)\)\s*\{", sro)
-refuse_inactive = refuse_dbro = False
-if m:
-    cond = m.group(1)
-    refuse_inactive = bool(re.search(r"lifecycle[^|]*!=\s*LIFECYCLE_ACTIVE", cond))
-    refuse_dbro = bool(re.search(r"database_read_only", cond))
-    # the refusal must return before the store
-    seg = sro[m.end():]
-    ret = seg.find("return")
-    st = seg.find("read_only.store") if "read_only.store" in seg else seg.find("read_only\n")
-    if ret == -1 or (st != -1 and st < ret):
-        refuse_inactive = refuse_dbro = False
+# ------------------------------------------------------------------------------------------
+# refusal conditions of set_read_only / ensure_mutable
+# ------------------------------------------------------------------------------------------
 
-# ensure_mutable: which conditions reject
-em = fns["ensure_mutable"]["body"]
-em_lc = bool(re.search(r"lifecycle[^;{]*!=\s*LIFECYCLE_ACTIVE", em))
-em_dbro = "database_read_only" in em
-em_ro = bool(re.search(r"self\s*\.\s*read_only\s*\.\s*load", em))
-em_lc_first = em_lc and em.find("lifecycle") < em.find("read_only")
+def expr_inlined(name, stack=()):
+    """raw body with every call of a Collection fn whose body is a single expression replaced by `( body )`"""
+    f = fns[name]
+    body = f["raw"]
+    rx = re.compile(r"(?<![\w.])(?:self|Self|Collection)" + W + r"(?:\.|::)" + W + r"(\w+)" + W + r"\(")
+    out, i = [], 0
+    while True:
+        m = rx.search(body, i)
+        if not m:
+            out.append(body[i:])
+            break
+        c = m.group(1)
+        p1 = match_brace(body, m.end() - 1, "(", ")")
+        if c in fns and c != name and c not in stack and len(stack) < 6 \
+                and not re.search(r"[;{]|\b(?:return|let)\b", fns[c]["raw"]):
+            out.append(body[i:m.start()] + "(" + expr_inlined(c, stack + (name,)) + ")")
+        else:
+            out.append(body[i:p1 + 1])
+        i = p1 + 1
+    return "".join(out)
+
+
+def one_lifecycle_load(t, who):
+    ks = set(re.findall(r"§LC(\d+)§", t))
+    if len(ks) != 1:
+        die(f"c06_guards: {who} reads `lifecycle` {len(ks)} times; expected exactly one load")
+    return int(ks.pop())
+
+
+# set_read_only(flag): with flag = false, `self.read_only.store(..)` is reachable only on ACTIVE & db writable
+sro = canon(expr_inlined("set_read_only"))
+pm = None
+for prm in fns["set_read_only"]["params"].split(","):
+    pm = pm or re.fullmatch(r"\s*(?:mut\s+)?(\w+)\s*:\s*bool\s*", prm)
+if not pm:
+    die("c06_guards: set_read_only no longer takes a bool")
+flag = pm.group(1)
+k_sro = one_lifecycle_load(sro, "set_read_only")
+stores = [m.start() for m in re.finditer(PATTERNS[13][1], sro)]
+if not stores:
+    die("c06_guards: set_read_only no longer stores `read_only`")
+
+
+def sro_reach(fl, s, d):
+    return any(reachable(sro, p, {"lc": {k_sro: s}, "dbro": d, "params": {flag: fl}}) for p in stores)
+
+
+refuse_inactive = all(not sro_reach(False, s, d) for s in STATES if s != "ACTIVE" for d in (True, False))
+refuse_dbro = all(not sro_reach(False, s, True) for s in STATES)
+if not sro_reach(True, "CLOSED", True) or not sro_reach(False, "ACTIVE", False):
+    die("c06_guards: set_read_only never stores the flag")
+
+# ensure_mutable: the read-only flags are only consulted on ACTIVE; `Ok` needs both flags clear
+em = canon(expr_inlined("ensure_mutable"))
+k_em = one_lifecycle_load(em, "ensure_mutable")
+flags = [m.start() for m in re.finditer(r"§(?:DBRO|RO)§", em)]
+oks = [m.start() for m in re.finditer(r"\bOk\(", em)]
+if not oks:
+    die("c06_guards: ensure_mutable has no `Ok(..)`")
+em_lc = bool(flags) and all(not reachable(em, flags[0], {"lc": {k_em: s}}) for s in STATES if s != "ACTIVE") \
+    and reachable(em, flags[0], {"lc": {k_em: "ACTIVE"}})
+em_lc_ok = all(not reachable(em, p, {"lc": {k_em: s}, "dbro": False, "ro": False}) for p in oks for s in STATES if s != "ACTIVE")
+em_lc_first = em_lc and em_lc_ok and (not flags or em.find(f"§LC{k_em}§") < flags[0])
+em_dbro = "§DBRO§" in em and all(not reachable(em, p, {"lc": {k_em: "ACTIVE"}, "dbro": True, "ro": False}) for p in oks)
+em_ro = "§RO§" in em and all(not reachable(em, p, {"lc": {k_em: "ACTIVE"}, "dbro": False, "ro": True}) for p in oks)
+if not any(reachable(em, p, {"lc": {k_em: "ACTIVE"}, "dbro": False, "ro": False}) for p in oks):
+    die("c06_guards: ensure_mutable never returns Ok")
 
 # ------------------------------------------------------------------------------------------
-# database.rs: delete_collection / close_collection / open retiring branch
+# database.rs: delete_collection / close_collection / open_collection_with_schema / set_read_only
 # ------------------------------------------------------------------------------------------
-dsrc_full = strip_rust_comments(read_source(repo, "rs/anda_db/src/database.rs"))
-m = re.search(r"#\[cfg\(test\)\]\s*mod\s+tests", dsrc_full)
-dsrc = dsrc_full[:m.start()] if m else dsrc_full
+dsrc = cut_tests(strip_rust_comments(read_source(repo, "rs/anda_db/src/database.rs")))
 dfns = fns_of(dsrc, "AndaDB")
-for need in ["delete_collection", "close_collection", "open_collection_with_schema", "set_read_only"]:
+DB_FNS = ["delete_collection", "close_collection", "open_collection_with_schema", "set_read_only"]
+DB_ANCHORS = ["lock_collection_name", "flush_metadata"]
+for need in DB_FNS + DB_ANCHORS:
     if need not in dfns:
         die(f"c06_guards: fn AndaDB::{need} not found")
-DB_PATTERNS = [
-    ("dbRoCheck", r"\bread_only" + W + r"\." + W + r"load\("),
-    ("nameLock", r"\block_collection_name\("),
-    ("tombInsert", r"dropping_collections" + W + r"\." + W + r"write\(\)" + W + r"\." + W + r"insert\("),
-    ("tombRemove", r"dropping_collections" + W + r"\." + W + r"write\(\)" + W + r"\." + W + r"remove\("),
-    ("tombCheck", r"dropping_collections" + W + r"\." + W + r"read\(\)" + W + r"\." + W + r"contains\("),
-    ("beginDelete", r"\." + W + r"begin_delete\(\)"),
-    ("metaRemove", r"metadata" + W + r"\." + W + r"write\(\)" + W + r"\." + W + r"collections" + W + r"\." + W + r"remove\("),
-    ("flushMeta", r"\bflush_metadata\("),
-    ("dropData", r"\." + W + r"drop_data\(\)"),
-    ("regRemove", r"\bcollections" + W + r"\." + W + r"remove\("),
-    ("regInsert", r"\bcollections" + W + r"\." + W + r"insert\("),
-    ("activeCheck", r"\." + W + r"is_active_handle\(\)"),
-    ("poisonCheck", r"\." + W + r"is_poisoned\(\)"),
-    ("drain", r"\." + W + r"drain_operations\(\)"),
-    ("collClose", r"\bcollection" + W + r"\." + W + r"close\(\)"),
-    ("collOpen", r"\bCollection" + W + r"::" + W + r"open\("),
-    ("collFlush", r"\bcollection" + W + r"\." + W + r"flush\("),
-    ("roStoreDb", r"\bread_only" + W + r"\." + W + r"store\("),
-    ("collSetRo", r"\." + W + r"set_read_only\("),
-]
+
+
+def db_inlined(name, stack=()):
+    """body with every call of a private, non-anchor fn of impl AndaDB textually inlined"""
+    body = dfns[name]["raw"]
+    rx = re.compile(r"(?<![\w.])(?:self|Self|AndaDB)" + W + r"(?:\.|::)" + W + r"(\w+)" + W + r"(?:::<[^>()]*>)?\(")
+    out, i = [], 0
+    while True:
+        m = rx.search(body, i)
+        if not m:
+            out.append(body[i:])
+            break
+        c = m.group(1)
+        p1 = match_brace(body, m.end() - 1, "(", ")")
+        if c in dfns and dfns[c]["vis"] == 0 and c not in DB_ANCHORS and c != name and c not in stack and len(stack) < 8:
+            out.append(body[i:m.start()] + "{ " + body[m.end():p1] + " ; " + db_inlined(c, stack + (name,)) + " }")
+        else:
+            out.append(body[i:p1 + 1])
+        i = p1 + 1
+    return "".join(out)
 
 
 def db_skeleton(name):
-    body = dfns[name]["body"]
+    body = db_inlined(name)
+    # locals that hold the write guard of the handle registry
+    reg = [r"(?<!\w)collections" + W + r"\." + W + r"write\(\)"]
+    for m in re.finditer(r"\blet\s+(?:mut\s+)?(\w+)\s*=\s*(?:self\s*\.\s*)?(?:inner\s*\.\s*)?(?<!\w)collections\s*\.\s*write\(\)", body):
+        reg.append(r"(?<![\w.])" + re.escape(m.group(1)))
+    REG = r"(?:" + "|".join(reg) + r")"
+    pats = [
+        ("dbRoCheck", r"\bread_only" + W + r"\." + W + r"load\("),
+        ("nameLock", r"\block_collection_name\("),
+        ("tombInsert", r"dropping_collections" + W + r"\." + W + r"write\(\)" + W + r"\." + W + r"insert\("),
+        ("tombRemove", r"dropping_collections" + W + r"\." + W + r"write\(\)" + W + r"\." + W + r"remove\("),
+        ("tombCheck", r"dropping_collections" + W + r"\." + W + r"read\(\)" + W + r"\." + W + r"contains\("),
+        ("beginDelete", r"\." + W + r"begin_delete\(\)"),
+        ("metaRemove", r"metadata" + W + r"\." + W + r"write\(\)" + W + r"\." + W + r"collections" + W + r"\." + W + r"remove\("),
+        ("flushMeta", r"\bflush_metadata\("),
+        ("dropData", r"\." + W + r"drop_data\(\)"),
+        ("regRemove", REG + W + r"\." + W + r"remove\("),
+        ("regInsert", REG + W + r"\." + W + r"insert\("),
+        ("activeCheck", r"\." + W + r"is_active_handle\(\)"),
+        ("poisonCheck", r"\." + W + r"is_poisoned\(\)"),
+        ("drain", r"\." + W + r"drain_operations\(\)"),
+        ("collClose", r"(?<!\bself)" + r"\." + W + r"close\(\)" + W + r"\." + W + r"await"),
+        ("collOpen", r"\bCollection" + W + r"::" + W + r"open\("),
+        ("collFlush", r"(?<!\bself)" + r"\." + W + r"flush\("),
+        ("roStoreDb", r"\bread_only" + W + r"\." + W + r"store\("),
+        ("collSetRo", r"(?<!\bself)\." + W + r"set_read_only\("),
+    ]
     marks = []
-    for mk, pat in DB_PATTERNS:
+    for mk, pat in pats:
         for m in re.finditer(pat, body):
-            if mk == "regRemove" and re.search(r"metadata" + W + r"\." + W + r"write\(\)" + W + r"\." + W + r"$", body[:m.start()]):
-                continue
             marks.append((m.start(), mk))
     marks.sort()
     return [mk for _, mk in marks]
 
 
-db_skels = {n: db_skeleton(n) for n in ["delete_collection", "close_collection", "open_collection_with_schema", "set_read_only"]}
+db_skels = {n: db_skeleton(n) for n in DB_FNS}
 
 # ------------------------------------------------------------------------------------------
 # emit
 # ------------------------------------------------------------------------------------------
-
-def lname(s):
-    return s.lower()
-
-
 code_defs = "\n".join(f"def lc{n.capitalize()} : Nat := {consts[n]}" for n in STATES)
 edge_lines = ",\n  ".join(f'("{fn}", {consts[a]}, {consts[b]})' for fn, a, b in edges)
 init_lines = ", ".join(f'("{fn}", {consts[s]})' for fn, s in inits)
 db_defs = "\n".join(
     f'def db_{n} : List String := [{", ".join(chr(34) + k + chr(34) for k in sk)}]' for n, sk in db_skels.items())
 
+
+def B(x):
+    return "true" if x else "false"
+
+
 text1 = f"""/- GENERATED by bin/translate/c06_guards.py from rs/anda_db/src/collection.rs and database.rs — do not edit. -/
 namespace AndaVerif.Gen.Lifecycle
 
 {code_defs}
 
-/-- every `compare_exchange` / `store` on `Collection::lifecycle`: (function, from, to).
-An unconditional `store` contributes an edge from every state. -/
+/-- every `compare_exchange` / `store` on `Collection::lifecycle`: (entry point, from, to); private helpers are
+attributed to the entry points that reach them. An unconditional `store` contributes an edge from every state;
+a `compare_exchange(v, TO)` one from every value `v` can have at the call. -/
 def edges : List (String × Nat × Nat) := [
   {edge_lines}]
 
 /-- constructors: (function, initial lifecycle value) -/
 def inits : List (String × Nat) := [{init_lines}]
 
-/-- `set_read_only(false)` returns without storing when `lifecycle != ACTIVE` / when the database is read-only -/
-def setReadOnlyRefusesInactive : Bool := {"true" if refuse_inactive else "false"}
-def setReadOnlyRefusesDbReadOnly : Bool := {"true" if refuse_dbro else "false"}
-/-- `ensure_mutable` rejects on: lifecycle != ACTIVE (checked first), database_read_only, read_only -/
-def ensureMutableChecksLifecycle : Bool := {"true" if em_lc else "false"}
-def ensureMutableChecksLifecycleFirst : Bool := {"true" if em_lc_first else "false"}
-def ensureMutableChecksDbReadOnly : Bool := {"true" if em_dbro else "false"}
-def ensureMutableChecksReadOnly : Bool := {"true" if em_ro else "false"}
+/-- `set_read_only(false)` does not store when `lifecycle != ACTIVE` / when the database is read-only -/
+def setReadOnlyRefusesInactive : Bool := {B(refuse_inactive)}
+def setReadOnlyRefusesDbReadOnly : Bool := {B(refuse_dbro)}
+/-- `ensure_mutable` rejects on: lifecycle != ACTIVE (decided before a flag is read), database_read_only, read_only -/
+def ensureMutableChecksLifecycle : Bool := {B(em_lc and em_lc_ok)}
+def ensureMutableChecksLifecycleFirst : Bool := {B(em_lc_first)}
+def ensureMutableChecksDbReadOnly : Bool := {B(em_dbro)}
+def ensureMutableChecksReadOnly : Bool := {B(em_ro)}
 
-/-- effect markers of the database-level functions, in textual order -/
+/-- `close`: values of the lifecycle re-read after the exclusive gate under which the guarded flush is reached -/
+def closeFlushStates : List Nat := [{", ".join(str(consts[x]) for x in close_flush_states)}]
+
+/-- effect markers of the database-level functions, in textual order (private helpers inlined) -/
 {db_defs}
 
 theorem gen_codes : [lcActive, lcClosing, lcClosed, lcDeleting, lcDeleted, lcPoisoned] = [0, 1, 2, 3, 4, 5] := by decide
 theorem gen_no_edge_to_active : edges.all (fun e => e.2.2 != lcActive) = true := by decide
 theorem gen_poison_sources :
     (edges.filter (fun e => e.1 == "poison")).all (fun e => (e.2.1 == lcActive || e.2.1 == lcClosing) && e.2.2 == lcPoisoned) = true := by decide
+theorem gen_close_flushes_only_closing : closeFlushStates = [lcClosing] := by decide
 theorem gen_inits_active : inits.all (fun e => e.2 == lcActive) = true := by decide
 theorem gen_set_read_only_refuses : (setReadOnlyRefusesInactive && setReadOnlyRefusesDbReadOnly) = true := by decide
 theorem gen_ensure_mutable_checks :
@@ -404,20 +1065,20 @@ MARKERS = ["gateRead", "gateWrite", "ensureMutable", "ensureMutableChk", "cancel
 rows = []
 for name in fns:
     f = fns[name]
+    if f["vis"] == 0:
+        continue
     sk = skeleton(name)
     for k in sk:
         if k not in MARKERS and not k.startswith("call "):
             die(f"c06_guards: internal: unknown marker {k}")
-    callees = sorted(set(c for _, c in calls_of(f["body"])))
     rows.append(
-        f'  {{ name := "{name}", vis := {f["vis"]}, isAsync := {"true" if f["is_async"] else "false"}, recv := .{f["recv"]},\n'
-        f'    reaches := {"true" if reaches[name] else "false"}, direct := {"true" if direct_mut(f["body"]) else "false"}, poisons := {"true" if poisons[name] else "false"},\n'
-        f'    skel := [{", ".join("." + k for k in sk)}],\n'
-        f'    calls := [{", ".join(chr(34) + c + chr(34) for c in callees)}] }}')
+        f'  {{ name := "{name}", vis := {f["vis"]}, isAsync := {B(f["is_async"])}, recv := .{f["recv"]},\n'
+        f'    reaches := {B(reaches[name])}, poisons := {B(poisons[name])},\n'
+        f'    skel := [{", ".join("." + k for k in sk)}] }}')
 text2 = f"""/- GENERATED by bin/translate/c06_guards.py from rs/anda_db/src/collection.rs — do not edit. -/
 namespace AndaVerif.Gen.CollectionGuards
 
-/-- guard-skeleton markers, in the textual order they occur in a function body -/
+/-- guard-skeleton markers, in the order they are executed (= textual order, private helpers inlined) -/
 inductive Mk where
   | gateRead          -- operation_gate.read_owned().await   (also the first half of `mutation_lease().await?`)
   | gateWrite         -- operation_gate.write_owned().await
@@ -432,9 +1093,9 @@ inductive Mk where
   | lcStore           -- lifecycle.store(..)
   | roStore           -- self.read_only.store(..)
   | awaitPt           -- any other `.await`
-  | mut               -- a storage mutation: storage.put/create/delete/drop_*/store_metadata, index.flush/compact_index/drop_data,
+  | mut               -- a storage mutation: storage.put/create/delete/drop_*/store_metadata, <index>.flush/compact_index/drop_data,
                       -- BTree/BM25/Hnsw::new
-  | call (callee : String)  -- a call of a Collection fn that transitively reaches a storage mutation
+  | call (callee : String)  -- a call of a `pub` / `pub(crate)` Collection fn that transitively reaches a storage mutation
   deriving DecidableEq, Repr
 
 /-- receiver: none (constructor / associated fn), `&self`, `&mut self`, `self` -/
@@ -442,25 +1103,29 @@ inductive Recv where
   | none | shared | excl | owned
   deriving DecidableEq, Repr
 
+/-- one `pub` / `pub(crate)` fn of `impl Collection`. Private fns have no row: their bodies are inlined into the
+skeletons of their callers. A maximal run of body markers (`mut`, `awaitPt`, `poison`, `call`) is given as the
+sorted set of its members. -/
 structure Method where
   name : String
-  /-- 0 private, 1 pub(crate)/pub(super), 2 pub -/
+  /-- 1 pub(crate)/pub(super), 2 pub -/
   vis : Nat
   isAsync : Bool
   recv : Recv
   /-- transitively reaches a storage mutation through calls inside `impl Collection` -/
   reaches : Bool
-  /-- contains a storage mutation call itself -/
-  direct : Bool
   /-- transitively reaches `self.poison(..)` -/
   poisons : Bool
   skel : List Mk
-  calls : List String
 
 def methods : List Method := [
 {(","+chr(10)).join(rows)}]
 
-theorem gen_method_count : methods.length = {len(rows)} := by decide
+/-- private fns of `impl Collection` that reach a storage mutation and are called (by name) from code outside
+the fns of `impl Collection` in the same file — where no skeleton covers the call -/
+def privateWritersCalledOutside : List String := [{", ".join(chr(34) + c + chr(34) for c in called_outside)}]
+
+theorem gen_no_private_writer_called_outside : privateWritersCalledOutside = [] := by decide
 
 end AndaVerif.Gen.CollectionGuards
 """
